@@ -11,7 +11,7 @@ THEOREMS = ["C13_grammar_recogniser", "C13_strict_in_relaxed", "C13_response_wf"
             "C11http.C11_http_parse_is_fold", "C11http.C11_http_parse_app", "C11http.C11_http_segments",
             "C11http.C11_http_segments_fold", "C11http.C11_http_per_segment", "C11http.C11_http_reply_point", "C11http.C11_http_answer_monotone",
             "C11http.C11_http_dead_absorbing", "C11http.C11_http_fail_absorbing", "C11http.C11_http_content_absorbing",
-            "Env.the_env_ok"]
+            "C13frame.C13_frame_udp", "C13frame.C13_frame_tcp_first_state", "C13frame.C13_frame_tcp_first_history", "C13frame.C13_frame_tcp_answered", "C13frame.C13_frame_udp_answered", "C13frame.C13_frame_examples", "Env.the_env_ok"]
 MONITORS = ["C13udp", "C13tcp"]
 RULE = ("grammar-directed HTTP requests (all nine methods, targets with arbitrary bytes incl. non-UTF-8 and '%', 0..8 header "
         "lines, CRLF or bare LF, optional body), every prefix and every single-byte deletion / insertion / substitution of "
